@@ -2570,7 +2570,7 @@ def geometric_vsop_pos(epoch, vsop_l, vsop_b, vsop_r, tofk5=True):
     """
 
     # First check that input values are of correct types
-    if not isinstance(epoch, Epoch):
+    if not (isinstance(epoch, Epoch) and isinstance(tofk5, bool)):
         raise TypeError("Invalid input types")
     # Second, call the auxiliary function in charge of computations
     lon, lat, r = vsop_pos(epoch, vsop_l, vsop_b, vsop_r)
@@ -2615,7 +2615,7 @@ def apparent_vsop_pos(epoch, vsop_l, vsop_b, vsop_r, nutation=True):
     """
 
     # First check that input values are of correct types
-    if not isinstance(epoch, Epoch):
+    if not (isinstance(epoch, Epoch) and isinstance(nutation, bool)):
         raise TypeError("Invalid input types")
     # Second, call auxiliary function in charge of computations
     lon, lat, r = geometric_vsop_pos(epoch, vsop_l, vsop_b, vsop_r)
@@ -2803,6 +2803,7 @@ def kepler_equation(eccentricity, mean_anomaly):
     :returns: A tuple with two Angle objects: Eccentric and true anomalies
     :rtype: tuple
     :raises: TypeError if input values are of wrong type.
+    :raises: ValueError if eccentricity is not smaller than 1.
 
     >>> eccentricity = 0.1
     >>> mean_anomaly = Angle(5.0)
@@ -2850,6 +2851,8 @@ def kepler_equation(eccentricity, mean_anomaly):
         and isinstance(mean_anomaly, Angle)
     ):
         raise TypeError("Invalid input types")
+    if eccentricity >= 1.0:
+        raise ValueError("Invalid eccentricity: Orbit must be elliptic")
     # Let's implement the third method (from Roger Sinnot), page 206
     # First, compute the eccentric anomaly
     m = mean_anomaly.rad()
@@ -2899,12 +2902,15 @@ def orbital_elements(epoch, parameters1, parameters2):
         - argument of the perihelion (Angle)
     :rtype: tuple
     :raises: TypeError if input values are of wrong type.
+    :raises: ValueError if input tables have a wrong number of rows.
     """
 
     # First check that input values are of correct types
     if not (isinstance(epoch, Epoch) and isinstance(parameters1, list)
             and isinstance(parameters2, list)):
         raise TypeError("Invalid input types")
+    if len(parameters1) < 3 or len(parameters2) not in (4, 6):
+        raise ValueError("Invalid number of rows in input tables")
 
     # Define an auxiliary function
     def compute_element(t, param):
@@ -2944,6 +2950,7 @@ def velocity(r, a):
     :returns: Velocity of the body, in kilometers per second
     :rtype: float
     :raises: TypeError if input values are of wrong type.
+    :raises: ValueError if input values are not positive.
 
     >>> r = 1.0
     >>> a = 17.9400782
@@ -2954,6 +2961,8 @@ def velocity(r, a):
 
     if not (isinstance(r, float) and isinstance(a, float)):
         raise TypeError("Invalid input types")
+    if r <= 0.0 or a <= 0.0:
+        raise ValueError("Invalid input values")
     return 42.1218 * sqrt((1.0 / r) - (1.0 / (2.0 * a)))
 
 
@@ -3093,7 +3102,8 @@ def passage_nodes_elliptic(omega, e, a, t, ascending=True):
     """
 
     if not (isinstance(omega, Angle) and isinstance(e, float)
-            and isinstance(a, float) and isinstance(t, Epoch)):
+            and isinstance(a, float) and isinstance(t, Epoch)
+            and isinstance(ascending, bool)):
         raise TypeError("Invalid input types")
     # First, get the true anomaly
     if ascending:
@@ -3159,7 +3169,7 @@ def passage_nodes_parabolic(omega, q, t, ascending=True):
     """
 
     if not (isinstance(omega, Angle) and isinstance(q, float)
-            and isinstance(t, Epoch)):
+            and isinstance(t, Epoch) and isinstance(ascending, bool)):
         raise TypeError("Invalid input types")
     # First, get the true anomaly
     if ascending:
